@@ -289,7 +289,8 @@ func runC05(c *Ctx) {
 					return ok && typeShort(m.Elem()) == "subscribeContext"
 				}
 				for _, wt := range CallsIn(parent, false, w.calleeIs("WaitGroup.Wait")) {
-					bad := PathQ{Stop: func(in ssa.Instruction) bool { return rollback(in) || isFinalizeRange(in) }, Goal: isReturn}.From(wt)
+					// (an exit of an extracted fan-out helper continues at its call site in connectCmd)
+					bad := w.mustPassUp(wt, PathQ{Stop: func(in ssa.Instruction) bool { return rollback(in) || isFinalizeRange(in) }, Goal: isReturn}, 2)
 					d := "a connect that fails after its server-side subscribes were applied must undo their reservations, hub entries and presence"
 					if bad != nil {
 						d += " (return at " + w.InstrPos(bad) + ")"
